@@ -39,6 +39,7 @@ class StubSink(ClientMessageSink):
     self.spec = spec
     self._state = ChannelState.Idle
     self.created_at = CLOCK.now
+    self.created_step = SimLoop.INSTANCE.steps
     self.open_calls = 0
     self.close_calls = 0
     self.closed_at = None
@@ -79,11 +80,17 @@ class StubSink(ClientMessageSink):
       if (self.closed_at is not None or self.died_at is not None) and not fail:
         # closed while opening: report failure like a real transport would
         ar.set_exception(StubError('closed during open'))
+        fn = getattr(self.provider.world, 'on_open_failed', None)
+        if fn:
+          fn(self)
         return
       if fail:
         self._state = ChannelState.Closed
         self.died_at = CLOCK.now
         self.provider.note('open_failed', self)
+        fn = getattr(self.provider.world, 'on_open_failed', None)
+        if fn:
+          fn(self)
         ar.set_exception(StubError('open failed'))
         if self.spec.get('fault_on_open_fail', True):
           self.on_faulted.Set(StubError('open failed'))
